@@ -93,6 +93,7 @@ def parallel(ctx, jobs, also=None):
     store, lock = {}, threading.Lock()
 
     def key(module, cfg, kw):
+        kw = {k: v for k, v in kw.items() if k != "timeout"}     # Ctx.tlc puts a floor under it
         return (module, str(cfg), json.dumps(kw, sort_keys=True, default=str))
 
     def recording(module, cfg, workdir, **kw):
